@@ -8,6 +8,7 @@ all machine states.  check: (1) the table rows vs used_registers/defined_registe
 spec on probe states, looking for a register outside the instance's defined registers that changes or a
 register outside its used registers that influences the result."""
 from harness import rvlib
+from harness import c07_native
 
 PROP = "C07"
 LEAN_PROPS = "PpciVerif/Props/C07.lean"
@@ -21,8 +22,11 @@ LEVEL_TEXT = (
     "compressed classes where the ISA makes it implicit). The declared sets are the live Operand(read/write) flags, "
     "regenerated into a Lean table on every run and kernel-checked against the instruction footprint; the instruction a "
     "class executes is tied to its emitted bytes by C08. NOT covered: arm, thumb, m68k, mips, x86_64 (no formal ISA "
-    "semantics exists here; no emulator in the sandbox) — nothing is claimed for them; float classes; "
-    "extra_uses/extra_defs/clobbers set by code generation on call instructions.")
+    "semantics exists here; no emulator in the sandbox) — nothing is PROVED or claimed for them; float classes; "
+    "extra_uses/extra_defs/clobbers set by code generation on call instructions. "
+    "x86_64 additionally gets an always-on NATIVE failing-input search WITHOUT any theorem: every instruction class that is "
+    "safe to run in isolation is encoded by ppci and executed on the host CPU inside a register-file stub; a register that "
+    "changes outside defined_registers/clobbers, or an undeclared register that influences the result, is reported.")
 LEVEL_NOTE = (
     "trusted: Lean kernel; Spec.RV32.step (written from the manual, not validated by an emulator — none exists in the "
     "sandbox; its decoder is validated against llvm-mc under C08); translate/c07_annot.py; meaning<->bytes by C08's theorem "
@@ -133,8 +137,9 @@ def check(ctx):
     if insts:
         ctx.sample({"case": list(insts[0][0]), "bytes": insts[0][2].hex(), "used": insts[0][3], "defined": insts[0][4], "probe": probe[0]})
         ctx.sample({"case": list(insts[-1][0]), "bytes": insts[-1][2].hex(), "used": insts[-1][3], "defined": insts[-1][4], "probe": probe[-1]})
+    c07_native.check(ctx)
     ctx.extra_cov["exhaustive"] = False
-    ctx.extra_cov["isas_not_covered"] = ["arm", "thumb", "m68k", "mips", "x86_64"]
+    ctx.extra_cov["isas_not_covered"] = ["arm", "thumb", "m68k", "mips", "x86_64 (native search only, no theorem)"]
 
 
 def replay(ctx, rp):
